@@ -48,6 +48,10 @@ TIdentity == /\ Rec.ev = "identity"
              /\ LET sc[k \in 0..Rec.L] == IF k = 0 THEN GOne ELSE GMul(sc[k-1], G2(Rec.scale))
                     want == MId(PowN(Rec.d, Rec.L), sc[Rec.L])
                 IN Mat(MpoOf(Rec.T)) = want /\ Put(Rec.r, want)
+(* the user overwrites one site tensor of a live object in place (here: multiplies it by an integer): by multilinearity the  *)
+(* dense meaning is multiplied as well; every later operation must see the new tensors (nothing may be cached on the object) *)
+TPoke == /\ Rec.ev = "poke" /\ Has(Rec.a)
+         /\ Put(Rec.a, IF Rec.cls = "mps" THEN VScale(GInt(Rec.c), den[Rec.a]) ELSE MScale(GInt(Rec.c), den[Rec.a]))
 (* as_vector / as_matrix (dense and sparse) return the dense meaning *)
 TDenseVec == /\ Rec.ev = "dense_vec" /\ Has(Rec.a) /\ T1(Rec.v) = den[Rec.a] /\ den' = den
 TDenseMat == /\ Rec.ev = "dense_mat" /\ Has(Rec.a) /\ T2(Rec.m) = den[Rec.a] /\ den' = den
@@ -134,7 +138,7 @@ TKeff == /\ Rec.ev = "keff"
 (* clauses decided numerically by the harness (mode N), e.g. dense = sparse form for operators of tiny / huge magnitude *)
 TFlag == /\ Rec.ev = "flag" /\ Rec.ok /\ den' = den
 
-TAny == TFlag \/ TNewMps \/ TNewMpo \/ TAddMps \/ TAddMpo \/ TMul \/ TApply \/ TIdentity \/ TDenseVec \/ TDenseMat
+TAny == TFlag \/ TPoke \/ TNewMps \/ TNewMpo \/ TAddMps \/ TAddMpo \/ TMul \/ TApply \/ TIdentity \/ TDenseVec \/ TDenseMat
         \/ TVdot \/ TAvg \/ TOda \/ TBlocks \/ TStepLR \/ TStep2 \/ THeff \/ THeff2 \/ TKeff
 TStep == HasRec /\ TAny /\ Advance
 TNextTrace == /\ tid <= Len(Tr) /\ l > Len(Tr[tid])
